@@ -69,7 +69,7 @@ impl Property for C04 {
             .boxed()
     }
     fn cases(&self, tier: Tier) -> u64 {
-        tier.pick(400_000, 20_000_000)
+        tier.pick(2_000_000, 25_000_000)
     }
     fn enumerate(&self, tier: Tier, shard: usize, nshards: usize, emit: &mut Emit<Case>) {
         // every inflection for ranks <= 3000
